@@ -143,12 +143,38 @@ func cloneEvs(evs []vEv) []vEv {
 	return out
 }
 
+// the byte slice a Marshal call returned is the caller's: it is looked at again after the NEXT Marshal
+// (of either message kind) - an encoder that recycles its buffer shows here
+var c13Held struct {
+	coqPrefix string // "EncReq f0 f1 f2 f3" / "EncResp ok msg" of the held message
+	class     string
+	m, copyOf []byte
+}
+
+func c13CheckHeld(em *vEmitter) {
+	h := &c13Held
+	if h.m != nil && !bytes.Equal(h.m, h.copyOf) {
+		em.emit(vCase{Prop: "C13", Kind: "encheld", Class: h.class + "/held-across-next-marshal", Nontrivial: true,
+			Coq:   h.coqPrefix + " (Some " + cH(h.m) + ")",
+			Human: map[string]interface{}{"what": "the bytes returned by Marshal changed when the next message was marshalled", "was": vHex(h.copyOf), "now": vHex(h.m)}})
+	}
+	h.m = nil
+}
+
+func c13Hold(coqPrefix, class string, m []byte) {
+	c13Held.coqPrefix, c13Held.class, c13Held.m, c13Held.copyOf = coqPrefix, class, m, append([]byte{}, m...)
+}
+
 func c13EncReq(em *vEmitter, f [4][]byte, class string) {
 	req := &Request{string(f[0]), string(f[1]), string(f[2]), string(f[3])}
 	var buf bytes.Buffer
 	err := req.Encode(&buf)
 	// Marshal must agree with Encode
 	m, merr := req.Marshal()
+	c13CheckHeld(em)
+	if merr == nil && len(m) < 2000 {
+		c13Hold(fmt.Sprintf("EncReq %s %s %s %s", cField(f[0]), cField(f[1]), cField(f[2]), cField(f[3])), class, m)
+	}
 	if (err == nil) != (merr == nil) || (err == nil && !bytes.Equal(m, buf.Bytes())) {
 		class += "/marshal-differs"
 		err = fmt.Errorf("Marshal and Encode disagree")
@@ -172,6 +198,15 @@ func c13EncResp(em *vEmitter, ok bool, msg []byte, class string) {
 	resp := &Response{ok, string(msg)}
 	var buf bytes.Buffer
 	err := resp.Encode(&buf)
+	if m, merr := resp.Marshal(); (err == nil) != (merr == nil) || (err == nil && !bytes.Equal(m, buf.Bytes())) {
+		class += "/marshal-differs"
+		err = fmt.Errorf("Marshal and Encode disagree")
+	} else {
+		c13CheckHeld(em)
+		if merr == nil && len(m) < 2000 {
+			c13Hold(fmt.Sprintf("EncResp %s %s", cB(ok), cField(msg)), class, m)
+		}
+	}
 	out := "None"
 	if err == nil {
 		out = "(Some " + cH(buf.Bytes()) + ")"
